@@ -8,6 +8,7 @@ import (
 	"testing"
 
 	erpc "github.com/henrylee2cn/erpc/v6"
+	"github.com/henrylee2cn/erpc/v6/plugin/ignorecase"
 	"pgregory.net/rapid"
 
 	"verifharness/vt"
@@ -23,12 +24,22 @@ type RArg struct{ X string }
 var c10Log struct {
 	sync.Mutex
 	hits map[string]int
+	seen map[string]string // handler identity -> service method its context showed at its latest run
 }
 
-func hit(id string) {
+// hitAs records a run of handler id together with the service method that its context reports.
+func hitAs(ctx interface{ ServiceMethod() string }, id string) {
+	sm := ctx.ServiceMethod()
 	c10Log.Lock()
 	c10Log.hits[id]++
+	c10Log.seen[id] = sm
 	c10Log.Unlock()
+}
+
+func seenBy(id string) string {
+	c10Log.Lock()
+	defer c10Log.Unlock()
+	return c10Log.seen[id]
 }
 
 func hits() map[string]int {
@@ -43,51 +54,69 @@ func hits() map[string]int {
 
 type AaBb struct{ erpc.CallCtx }
 
-func (c *AaBb) Get(a *RArg) (string, *erpc.Status)    { hit("AaBb.Get"); return "AaBb.Get", nil }
-func (c *AaBb) GetAll(a *RArg) (string, *erpc.Status) { hit("AaBb.GetAll"); return "AaBb.GetAll", nil }
+func (c *AaBb) Get(a *RArg) (string, *erpc.Status) { hitAs(c, "AaBb.Get"); return "AaBb.Get", nil }
+func (c *AaBb) GetAll(a *RArg) (string, *erpc.Status) {
+	hitAs(c, "AaBb.GetAll")
+	return "AaBb.GetAll", nil
+}
 func (c *AaBb) Get_All(a *RArg) (string, *erpc.Status) {
-	hit("AaBb.Get_All")
+	hitAs(c, "AaBb.Get_All")
 	return "AaBb.Get_All", nil
 }
 
 type Aa__Bb struct{ erpc.CallCtx }
 
-func (c *Aa__Bb) Get(a *RArg) (string, *erpc.Status) { hit("Aa__Bb.Get"); return "Aa__Bb.Get", nil }
+func (c *Aa__Bb) Get(a *RArg) (string, *erpc.Status) {
+	hitAs(c, "Aa__Bb.Get")
+	return "Aa__Bb.Get", nil
+}
 
 type Aa_Bb struct{ erpc.CallCtx }
 
-func (c *Aa_Bb) Get(a *RArg) (string, *erpc.Status) { hit("Aa_Bb.Get"); return "Aa_Bb.Get", nil }
+func (c *Aa_Bb) Get(a *RArg) (string, *erpc.Status) { hitAs(c, "Aa_Bb.Get"); return "Aa_Bb.Get", nil }
 func (c *Aa_Bb) X__Y(a *RArg) (string, *erpc.Status) {
-	hit("Aa_Bb.X__Y")
+	hitAs(c, "Aa_Bb.X__Y")
 	return "Aa_Bb.X__Y", nil
 }
 
 type ABcXYz struct{ erpc.CallCtx }
 
-func (c *ABcXYz) A(a *RArg) (string, *erpc.Status)   { hit("ABcXYz.A"); return "ABcXYz.A", nil }
-func (c *ABcXYz) URL(a *RArg) (string, *erpc.Status) { hit("ABcXYz.URL"); return "ABcXYz.URL", nil }
+func (c *ABcXYz) A(a *RArg) (string, *erpc.Status) { hitAs(c, "ABcXYz.A"); return "ABcXYz.A", nil }
+func (c *ABcXYz) URL(a *RArg) (string, *erpc.Status) {
+	hitAs(c, "ABcXYz.URL")
+	return "ABcXYz.URL", nil
+}
 
 type ABC__XYZ struct{ erpc.CallCtx }
 
-func (c *ABC__XYZ) Do(a *RArg) (string, *erpc.Status) { hit("ABC__XYZ.Do"); return "ABC__XYZ.Do", nil }
+func (c *ABC__XYZ) Do(a *RArg) (string, *erpc.Status) {
+	hitAs(c, "ABC__XYZ.Do")
+	return "ABC__XYZ.Do", nil
+}
 
 type ABC_XYZ struct{ erpc.CallCtx }
 
-func (c *ABC_XYZ) Do(a *RArg) (string, *erpc.Status) { hit("ABC_XYZ.Do"); return "ABC_XYZ.Do", nil }
+func (c *ABC_XYZ) Do(a *RArg) (string, *erpc.Status) {
+	hitAs(c, "ABC_XYZ.Do")
+	return "ABC_XYZ.Do", nil
+}
 func (c *ABC_XYZ) Do2(a *RArg) (string, *erpc.Status) {
-	hit("ABC_XYZ.Do2")
+	hitAs(c, "ABC_XYZ.Do2")
 	return "ABC_XYZ.Do2", nil
 }
 
 type Home struct{ erpc.CallCtx }
 
-func (c *Home) Index(a *RArg) (string, *erpc.Status) { hit("Home.Index"); return "Home.Index", nil }
+func (c *Home) Index(a *RArg) (string, *erpc.Status) {
+	hitAs(c, "Home.Index")
+	return "Home.Index", nil
+}
 func (c *Home) Index_(a *RArg) (string, *erpc.Status) {
-	hit("Home.Index_")
+	hitAs(c, "Home.Index_")
 	return "Home.Index_", nil
 }
 func (c *Home) V1_Get(a *RArg) (string, *erpc.Status) {
-	hit("Home.V1_Get")
+	hitAs(c, "Home.V1_Get")
 	return "Home.V1_Get", nil
 }
 
@@ -95,67 +124,88 @@ func (c *Home) V1_Get(a *RArg) (string, *erpc.Status) {
 // (the documented rows AaBb and Aa__Bb): registering it must report a conflict.
 type Dup struct{ erpc.CallCtx }
 
-func (c *Dup) GetItem(a *RArg) (string, *erpc.Status) { hit("Dup.GetItem"); return "Dup.GetItem", nil }
+func (c *Dup) GetItem(a *RArg) (string, *erpc.Status) {
+	hitAs(c, "Dup.GetItem")
+	return "Dup.GetItem", nil
+}
 func (c *Dup) Get__Item(a *RArg) (string, *erpc.Status) {
-	hit("Dup.Get__Item")
+	hitAs(c, "Dup.Get__Item")
 	return "Dup.Get__Item", nil
 }
-func (c *Dup) Other(a *RArg) (string, *erpc.Status) { hit("Dup.Other"); return "Dup.Other", nil }
+func (c *Dup) Other(a *RArg) (string, *erpc.Status) { hitAs(c, "Dup.Other"); return "Dup.Other", nil }
 
 // PDup: the same for push controllers.
 type PDup struct{ erpc.PushCtx }
 
-func (p *PDup) NoteAll(a *RArg) *erpc.Status   { hit("PDup.NoteAll"); return nil }
-func (p *PDup) Note__All(a *RArg) *erpc.Status { hit("PDup.Note__All"); return nil }
+func (p *PDup) NoteAll(a *RArg) *erpc.Status   { hitAs(p, "PDup.NoteAll"); return nil }
+func (p *PDup) Note__All(a *RArg) *erpc.Status { hitAs(p, "PDup.Note__All"); return nil }
 
 type P1 struct{ erpc.PushCtx }
 
-func (p *P1) Note(a *RArg) *erpc.Status    { hit("P1.Note"); return nil }
-func (p *P1) NoteAll(a *RArg) *erpc.Status { hit("P1.NoteAll"); return nil }
+func (p *P1) Note(a *RArg) *erpc.Status    { hitAs(p, "P1.Note"); return nil }
+func (p *P1) NoteAll(a *RArg) *erpc.Status { hitAs(p, "P1.NoteAll"); return nil }
 
 // PAaBb shares method names with the call controller AaBb on purpose.
 type PAaBb struct{ erpc.PushCtx }
 
-func (p *PAaBb) Get(a *RArg) *erpc.Status { hit("PAaBb.Get"); return nil }
+func (p *PAaBb) Get(a *RArg) *erpc.Status { hitAs(p, "PAaBb.Get"); return nil }
 
-func FnPlain(ctx erpc.CallCtx, a *RArg) (string, *erpc.Status) { hit("FnPlain"); return "FnPlain", nil }
-func FnAaBb(ctx erpc.CallCtx, a *RArg) (string, *erpc.Status)  { hit("FnAaBb"); return "FnAaBb", nil }
-func Fn_AaBb(ctx erpc.CallCtx, a *RArg) (string, *erpc.Status) { hit("Fn_AaBb"); return "Fn_AaBb", nil }
+func FnPlain(ctx erpc.CallCtx, a *RArg) (string, *erpc.Status) {
+	hitAs(ctx, "FnPlain")
+	return "FnPlain", nil
+}
+func FnAaBb(ctx erpc.CallCtx, a *RArg) (string, *erpc.Status) {
+	hitAs(ctx, "FnAaBb")
+	return "FnAaBb", nil
+}
+func Fn_AaBb(ctx erpc.CallCtx, a *RArg) (string, *erpc.Status) {
+	hitAs(ctx, "Fn_AaBb")
+	return "Fn_AaBb", nil
+}
 func Fn__AaBb(ctx erpc.CallCtx, a *RArg) (string, *erpc.Status) {
-	hit("Fn__AaBb")
+	hitAs(ctx, "Fn__AaBb")
 	return "Fn__AaBb", nil
 }
 func Fn_Aa_Bb(ctx erpc.CallCtx, a *RArg) (string, *erpc.Status) {
-	hit("Fn_Aa_Bb")
+	hitAs(ctx, "Fn_Aa_Bb")
 	return "Fn_Aa_Bb", nil
 }
-func Get(ctx erpc.CallCtx, a *RArg) (string, *erpc.Status)    { hit("Get"); return "Get", nil }
-func GetAll(ctx erpc.CallCtx, a *RArg) (string, *erpc.Status) { hit("GetAll"); return "GetAll", nil }
+func Get(ctx erpc.CallCtx, a *RArg) (string, *erpc.Status) { hitAs(ctx, "Get"); return "Get", nil }
+func GetAll(ctx erpc.CallCtx, a *RArg) (string, *erpc.Status) {
+	hitAs(ctx, "GetAll")
+	return "GetAll", nil
+}
 func Get__All(ctx erpc.CallCtx, a *RArg) (string, *erpc.Status) {
-	hit("Get__All")
+	hitAs(ctx, "Get__All")
 	return "Get__All", nil
 }
-func PushNote(ctx erpc.PushCtx, a *RArg) *erpc.Status { hit("PushNote"); return nil }
+func PushNote(ctx erpc.PushCtx, a *RArg) *erpc.Status { hitAs(ctx, "PushNote"); return nil }
 func FnPlainPush(ctx erpc.PushCtx, a *RArg) *erpc.Status {
-	hit("FnPlainPush")
+	hitAs(ctx, "FnPlainPush")
 	return nil
 }
-func GetPush(ctx erpc.PushCtx, a *RArg) *erpc.Status { hit("GetPush"); return nil }
+func GetPush(ctx erpc.PushCtx, a *RArg) *erpc.Status { hitAs(ctx, "GetPush"); return nil }
 
 // Acct and PSeq: handler methods that are valid handlers and merely share their identifier with
 // a method of the embedded context (which they shadow): they are handlers like any other.
 type Acct struct{ erpc.CallCtx }
 
-func (c *Acct) Login(a *RArg) (string, *erpc.Status)   { hit("Acct.Login"); return "Acct.Login", nil }
-func (c *Acct) Session(a *RArg) (string, *erpc.Status) { hit("Acct.Session"); return "Acct.Session", nil }
-func (c *Acct) Swap(a *RArg) (string, *erpc.Status)    { hit("Acct.Swap"); return "Acct.Swap", nil }
-func (c *Acct) IP(a *RArg) (string, *erpc.Status)      { hit("Acct.IP"); return "Acct.IP", nil }
+func (c *Acct) Login(a *RArg) (string, *erpc.Status) {
+	hitAs(c, "Acct.Login")
+	return "Acct.Login", nil
+}
+func (c *Acct) Session(a *RArg) (string, *erpc.Status) {
+	hitAs(c, "Acct.Session")
+	return "Acct.Session", nil
+}
+func (c *Acct) Swap(a *RArg) (string, *erpc.Status) { hitAs(c, "Acct.Swap"); return "Acct.Swap", nil }
+func (c *Acct) IP(a *RArg) (string, *erpc.Status)   { hitAs(c, "Acct.IP"); return "Acct.IP", nil }
 
 type PSeq struct{ erpc.PushCtx }
 
-func (p *PSeq) Other(a *RArg) *erpc.Status { hit("PSeq.Other"); return nil }
-func (p *PSeq) Seq(a *RArg) *erpc.Status   { hit("PSeq.Seq"); return nil }
-func (p *PSeq) Peer(a *RArg) *erpc.Status  { hit("PSeq.Peer"); return nil }
+func (p *PSeq) Other(a *RArg) *erpc.Status { hitAs(p, "PSeq.Other"); return nil }
+func (p *PSeq) Seq(a *RArg) *erpc.Status   { hitAs(p, "PSeq.Seq"); return nil }
+func (p *PSeq) Peer(a *RArg) *erpc.Status  { hitAs(p, "PSeq.Peer"); return nil }
 
 type libItem struct {
 	id      string
@@ -212,6 +262,111 @@ type c10Case struct {
 	UnknownPush bool
 	Requests    []string // extra requested names (random strings)
 	Early       bool     // the session is established before the unknown-handlers are set and the routes registered
+	// name-rewriting plugins on the serving peer, in registration order: "ignorecase" (the shipped
+	// plugin/ignorecase) and/or "rewrite" (a plugin applying the table Rewrites through ctx.ResetServiceMethod)
+	Rewriters []string
+	RewriteOn string // both | call | push: for which message types the table plugin's header hooks rewrite
+	Rewrites  []c10Rewrite
+	CaseMask  uint64 // which letters of a registered name are flipped to the other case for the "other letter case" requests
+}
+
+// c10Rewrite is one row of the rewrite table, abstract in the names (they exist only after registration).
+type c10Rewrite struct {
+	Alias     string // requested name that is rewritten; "@call"/"@push": the AliasIdx-th registered CALL/PUSH name itself
+	AliasIdx  int
+	Target    string // call | push: the TargetIdx-th registered name of that namespace; unreg: a name nobody registered; empty: ""
+	TargetIdx int
+}
+
+var c10Aliases = []string{"/alias/one", "/Alias/One", "alias.two", "Alias.Two", "ALIAS_3", "/a", "X", "", "@call", "@push"}
+
+func genC10Rewriters(t *rapid.T, c *c10Case) {
+	switch rapid.IntRange(0, 5).Draw(t, "rewriters") {
+	case 0, 1:
+		return // the default: no name-rewriting plugin
+	case 2:
+		c.Rewriters = []string{"ignorecase"}
+	case 3:
+		c.Rewriters = []string{"rewrite"}
+	case 4:
+		c.Rewriters = []string{"ignorecase", "rewrite"}
+	default:
+		c.Rewriters = []string{"rewrite", "ignorecase"}
+	}
+	c.CaseMask = rapid.Uint64().Draw(t, "casemask")
+	if len(c.Rewriters) == 1 && c.Rewriters[0] == "ignorecase" {
+		return
+	}
+	c.RewriteOn = rapid.SampledFrom([]string{"both", "both", "call", "push"}).Draw(t, "rewriteOn")
+	n := rapid.IntRange(1, 4).Draw(t, "nrewrites")
+	for i := 0; i < n; i++ {
+		c.Rewrites = append(c.Rewrites, c10Rewrite{
+			Alias:     rapid.SampledFrom(c10Aliases).Draw(t, "alias"),
+			AliasIdx:  rapid.IntRange(0, 7).Draw(t, "aliasIdx"),
+			Target:    rapid.SampledFrom([]string{"call", "call", "push", "push", "unreg", "empty"}).Draw(t, "target"),
+			TargetIdx: rapid.IntRange(0, 7).Draw(t, "targetIdx"),
+		})
+	}
+}
+
+// c10RewritePlugin rewrites the requested service method in the header hooks, as plugin/ignorecase does.
+type c10RewritePlugin struct {
+	on    string
+	mu    sync.Mutex
+	table map[string]string
+}
+
+func (p *c10RewritePlugin) Name() string { return "c10-rewrite" }
+
+func (p *c10RewritePlugin) setTable(t map[string]string) {
+	p.mu.Lock()
+	p.table = t
+	p.mu.Unlock()
+}
+
+func (p *c10RewritePlugin) rewrite(ctx erpc.ReadCtx) {
+	p.mu.Lock()
+	to, ok := p.table[ctx.ServiceMethod()]
+	p.mu.Unlock()
+	if ok {
+		ctx.ResetServiceMethod(to)
+	}
+}
+
+func (p *c10RewritePlugin) PostReadCallHeader(ctx erpc.ReadCtx) *erpc.Status {
+	if p.on != "push" {
+		p.rewrite(ctx)
+	}
+	return nil
+}
+
+func (p *c10RewritePlugin) PostReadPushHeader(ctx erpc.ReadCtx) *erpc.Status {
+	if p.on != "call" {
+		p.rewrite(ctx)
+	}
+	return nil
+}
+
+var (
+	_ erpc.PostReadCallHeaderPlugin = (*c10RewritePlugin)(nil)
+	_ erpc.PostReadPushHeaderPlugin = (*c10RewritePlugin)(nil)
+)
+
+// flipCase toggles the case of the letters of s selected by mask (bit i for the i-th letter).
+func flipCase(s string, mask uint64) string {
+	b := []byte(s)
+	k := uint(0)
+	for i, ch := range b {
+		lower, upper := ch >= 'a' && ch <= 'z', ch >= 'A' && ch <= 'Z'
+		if !lower && !upper {
+			continue
+		}
+		if mask>>(k%64)&1 == 1 {
+			b[i] = ch ^ 0x20
+		}
+		k++
+	}
+	return string(b)
 }
 
 func genC10(t *rapid.T) c10Case {
@@ -232,6 +387,7 @@ func genC10(t *rapid.T) c10Case {
 	c.UnknownPush = rapid.Bool().Draw(t, "unknownPush")
 	c.Requests = rapid.SliceOfN(rapid.StringMatching(`[/.]?[A-Za-z_]{0,6}([/._][a-z_]{1,5}){0,2}`), 0, 4).Draw(t, "requests")
 	c.Early = rapid.Bool().Draw(t, "early")
+	genC10Rewriters(t, &c)
 	return c
 }
 
@@ -274,11 +430,21 @@ func runC10(c c10Case) []string {
 	defer erpc.SetServiceMethodMapper(erpc.HTTPServiceMethodMapper)
 	c10Log.Lock()
 	c10Log.hits = map[string]int{}
+	c10Log.seen = map[string]string{}
 	c10Log.Unlock()
 	m := mapperFn(c.Mapper)
 	w := vt.NewWorld()
 	defer w.Close()
-	srv := w.Peer(erpc.PeerConfig{})
+	rewriter := &c10RewritePlugin{on: c.RewriteOn}
+	var srvPlugins []erpc.Plugin
+	for _, r := range c.Rewriters {
+		if r == "ignorecase" {
+			srvPlugins = append(srvPlugins, ignorecase.NewIgnoreCase())
+		} else {
+			srvPlugins = append(srvPlugins, rewriter)
+		}
+	}
+	srv := w.Peer(erpc.PeerConfig{}, srvPlugins...)
 	cli := w.Peer(erpc.PeerConfig{})
 	var fails []string
 	failf := func(format string, a ...interface{}) { fails = append(fails, fmt.Sprintf(format, a...)) }
@@ -308,12 +474,12 @@ func runC10(c c10Case) []string {
 	}
 	if c.UnknownCall {
 		srv.SetUnknownCall(func(ctx erpc.UnknownCallCtx) (interface{}, *erpc.Status) {
-			hit("<unknown-call>")
+			hitAs(ctx, "<unknown-call>")
 			return "<unknown-call>", nil
 		})
 	}
 	if c.UnknownPush {
-		srv.SetUnknownPush(func(ctx erpc.UnknownPushCtx) *erpc.Status { hit("<unknown-push>"); return nil })
+		srv.SetUnknownPush(func(ctx erpc.UnknownPushCtx) *erpc.Status { hitAs(ctx, "<unknown-push>"); return nil })
 	}
 	for _, r := range c.Regs {
 		it := c10Lib[r.Item]
@@ -381,6 +547,65 @@ func runC10(c c10Case) []string {
 	if len(fails) > 0 {
 		return fails
 	}
+	// the rewrite table in concrete names; a later row for the same alias replaces an earlier one
+	sortedNames := func(ns map[string]string) []string {
+		var out []string
+		for n := range ns {
+			out = append(out, n)
+		}
+		sort.Strings(out)
+		return out
+	}
+	callNames, pushNames := sortedNames(callNS), sortedNames(pushNS)
+	pick := func(kind string, idx int) (string, bool) {
+		names := callNames
+		if kind == "push" {
+			names = pushNames
+		}
+		if len(names) == 0 {
+			return "", false
+		}
+		return names[idx%len(names)], true
+	}
+	table := map[string]string{}
+	var aliases []string
+	for i, rw := range c.Rewrites {
+		alias, ok := rw.Alias, true
+		if strings.HasPrefix(alias, "@") {
+			alias, ok = pick(alias[1:], rw.AliasIdx)
+		}
+		if !ok {
+			continue
+		}
+		target := fmt.Sprintf("/c10/nobody/registered_%d", i)
+		switch rw.Target {
+		case "call", "push":
+			if n, ok := pick(rw.Target, rw.TargetIdx); ok {
+				target = n
+			}
+		case "empty":
+			target = ""
+		}
+		if _, dup := table[alias]; !dup {
+			aliases = append(aliases, alias)
+		}
+		table[alias] = target
+	}
+	rewriter.setTable(table)
+	// rewritten is the reference model of the name the router sees: the plugins' header hooks applied in registration order
+	rewritten := func(kind, name string) string {
+		for _, r := range c.Rewriters {
+			switch {
+			case r == "ignorecase":
+				name = strings.ToLower(name)
+			case c.RewriteOn == "both" || c.RewriteOn == kind:
+				if to, ok := table[name]; ok {
+					name = to
+				}
+			}
+		}
+		return name
+	}
 	if l == nil {
 		l = w.Connect(cli, srv, vt.StreamProtos()[0], nil)
 		if l.A == nil || l.B == nil {
@@ -408,14 +633,16 @@ func runC10(c c10Case) []string {
 		}
 		var wantID string
 		var known bool
+		// routing uses the name as the header hooks of the peer's plugins left it
+		routed := rewritten(kind, name)
 		if kind == "call" {
-			wantID, known = callNS[name]
+			wantID, known = callNS[routed]
 		} else {
-			wantID, known = pushNS[name]
+			wantID, known = pushNS[routed]
 		}
 		expectHit := ""
 		switch {
-		case name == "":
+		case routed == "":
 			// an empty service method is rejected as a bad message before any lookup
 		case known:
 			expectHit = wantID
@@ -427,6 +654,13 @@ func runC10(c c10Case) []string {
 		if expectHit != "" {
 			expected[expectHit]++
 		}
+		if routed != name {
+			what := "unregistered"
+			if known {
+				what = "registered"
+			}
+			c10Rewritten.Class("rewritten-"+kind+"->"+what, 1)
+		}
 		if kind == "call" {
 			var result string
 			cmd := l.A.AsyncCall(name, &RArg{X: "x"}, &result, make(chan erpc.CallCmd, 1))
@@ -436,21 +670,21 @@ func runC10(c c10Case) []string {
 			}
 			code := cmd.Status().Code()
 			switch {
-			case name == "":
+			case routed == "":
 				if code != 400 {
-					failf("call with an empty service method: status %d, want 400", code)
+					failf("call %q (service method after the header hooks: empty): status %d, want 400", name, code)
 				}
 			case known:
 				if code != 0 || result != wantID {
-					failf("call %q: status %d result %q, want OK and %q", name, code, result, wantID)
+					failf("call %q (service method after the header hooks: %q): status %d result %q, want OK and %q", name, routed, code, result, wantID)
 				}
 			case c.UnknownCall:
 				if code != 0 {
-					failf("call %q (unregistered, unknown handler set): status %d", name, code)
+					failf("call %q (after the header hooks: %q, unregistered, unknown handler set): status %d", name, routed, code)
 				}
 			default:
 				if code != 404 {
-					failf("call %q (unregistered): status %d, want 404", name, code)
+					failf("call %q (after the header hooks: %q, unregistered): status %d, want 404", name, routed, code)
 				}
 			}
 		} else if st := l.A.Push(name, &RArg{X: "x"}); !st.OK() {
@@ -461,7 +695,9 @@ func runC10(c c10Case) []string {
 			vt.WaitUntil(func() bool { return hits()[expectHit] >= expected[expectHit] })
 		}
 		if d := sameHits(); d != "" {
-			failf("after %s %q (name owned by %q): %s", kind, name, expectHit, d)
+			failf("after %s %q (service method after the header hooks %q, owned by %q): %s", kind, name, routed, expectHit, d)
+		} else if expectHit != "" && seenBy(expectHit) != routed {
+			failf("after %s %q: handler %s saw ctx.ServiceMethod() = %q, the header hooks had set %q", kind, name, expectHit, seenBy(expectHit), routed)
 		}
 	}
 	var names []string
@@ -485,6 +721,25 @@ func runC10(c c10Case) []string {
 		for _, nm := range nearMisses(n) {
 			request(kind, nm)
 		}
+		if len(c.Rewriters) > 0 {
+			// the registered name in other letter cases, in both namespaces
+			for j, nm := range []string{flipCase(n, c.CaseMask), flipCase(n, ^c.CaseMask), strings.ToLower(n)} {
+				request(kind, nm)
+				if j == 0 {
+					request(other, nm)
+				}
+			}
+		}
+		if len(fails) > 0 {
+			return fails
+		}
+	}
+	// every alias of the rewrite table as CALL and as PUSH, also in other letter cases
+	for _, a := range aliases {
+		for _, nm := range []string{a, flipCase(a, c.CaseMask), strings.ToLower(a), strings.ToUpper(a)} {
+			request("call", nm)
+			request("push", nm)
+		}
 		if len(fails) > 0 {
 			return fails
 		}
@@ -503,13 +758,17 @@ func runC10(c c10Case) []string {
 
 func (c c10Case) nontrivial() bool { return len(c.Groups) > 1 || len(c.Regs) > 1 }
 
-const ruleC10 = "router program = mapper (HTTP/RPC) x a tree of 0-4 SubRoute prefixes (incl. empty, separators, double underscores) x 1-8 registrations drawn from a library of 9 controller structs and 11 handler functions whose identifiers cover the documented shapes (AaBb, ABcXYz, Aa__Bb, Aa_Bb, ABC__XYZ, ABC_XYZ, leading/trailing underscores, deliberately colliding pairs) x unknown-call/unknown-push handlers set or not x the requesting session established before or after all of that; then every returned name, the same name in the other namespace, 8 near-misses per name and random strings are requested; oracle: names = mapper prediction and pairwise distinct, predicted collisions must be reported, each request runs exactly the handler owning the name (or the unknown handler / 404) and no other; non-trivial = >=2 registrations or nested groups; distinct by program"
+const ruleC10 = "router program = mapper (HTTP/RPC) x a tree of 0-4 SubRoute prefixes (incl. empty, separators, double underscores) x 1-8 registrations drawn from a library of 9 controller structs and 11 handler functions whose identifiers cover the documented shapes (AaBb, ABcXYz, Aa__Bb, Aa_Bb, ABC__XYZ, ABC_XYZ, leading/trailing underscores, deliberately colliding pairs) x unknown-call/unknown-push handlers set or not x the requesting session established before or after all of that x name-rewriting plugins on the serving peer (none, the shipped plugin/ignorecase, a plugin whose PostReadCallHeader/PostReadPushHeader hooks apply a generated rewrite table of 1-4 rows through ctx.ResetServiceMethod - alias or a registered name -> a registered CALL name, a registered PUSH name, an unregistered name or the empty name; acting on both message types or only on CALLs / only on PUSHes - or both plugins in either order); then every returned name, the same name in the other namespace, 8 near-misses per name and random strings are requested, with a rewriting plugin also every registered name in generated other letter cases and every alias (as is and in other letter cases) as CALL and as PUSH; oracle: names = mapper prediction and pairwise distinct, predicted collisions must be reported, each request runs exactly the handler that owns - in the namespace of the message type - the name as the plugins' header hooks left it (or the unknown handler / 404 / 400 for an empty name) and no other, and that handler's ctx.ServiceMethod() is that name; non-trivial = >=2 registrations or nested groups; distinct by program"
+
+// c10Rewritten counts the requests whose name a plugin rewrote, by message type and outcome.
+var c10Rewritten *vt.Rec
 
 func TestC10Routes(t *testing.T) {
 	rec := vt.NewRec(t, "C10", "routes", ruleC10)
+	c10Rewritten = rec
 	rapid.Check(t, func(t *rapid.T) {
 		c := genC10(t)
-		rec.Case(fmt.Sprintf("%+v", c), c.nontrivial(), "mapper="+c.Mapper, fmt.Sprintf("groups=%d", len(c.Groups)-1))
+		rec.Case(fmt.Sprintf("%+v", c), c.nontrivial(), "mapper="+c.Mapper, fmt.Sprintf("groups=%d", len(c.Groups)-1), "rewriters="+strings.Join(c.Rewriters, "+"), "rewriteOn="+c.RewriteOn)
 		if rec.WantSample() && c.nontrivial() {
 			rec.Sample(c)
 		}
